@@ -152,7 +152,12 @@ def run(ctx):
              "SELECT a FROM t WHERE a IN ({X}, 2) AND b BETWEEN {X} AND 9", "SELECT a FROM t WHERE EXISTS (SELECT 1 FROM u WHERE {X} = 1) UNION ALL SELECT {X} FROM v",
              "SELECT c FROM t LATERAL VIEW explode({X}) v AS c", "SELECT c FROM t LATERAL VIEW OUTER explode(split({X}, ',')) v AS c, d WHERE c > 1",
              "INSERT INTO r SELECT {X} FROM t", "INSERT INTO r VALUES ({X}, 1)", "UPDATE t SET a = {X} WHERE b = {X}", "DELETE FROM t WHERE {X} = 1", "SELECT CAST({X} AS CHAR), IF({X}, 1, 2) FROM t",
-             "SELECT a FROM t LIMIT 3", "SELECT a FROM t SORT BY {X}", "SELECT a FROM t DISTRIBUTE BY {X}", "INSERT OVERWRITE TABLE r PARTITION (dt = {X}) SELECT a FROM t"]
+             "SELECT a FROM t LIMIT 3", "SELECT a FROM t SORT BY {X}", "SELECT a FROM t DISTRIBUTE BY {X}", "INSERT OVERWRITE TABLE r PARTITION (dt = {X}) SELECT a FROM t",
+             # groupings of exactly ONE element, of two, and the plain GROUP BY list (the printer decides the grouping's brackets per grouping: seeded C13-13 looked at the
+             # single element's text under the DEFAULT dialect)
+             "SELECT a, COUNT(1) FROM t GROUP BY a, b GROUPING SETS ({X}, (a, b))", "SELECT a FROM t GROUP BY a GROUPING SETS (a, f({X}))", "SELECT a FROM (SELECT a FROM t GROUP BY GROUPING SETS ({X})) s",
+             "SELECT a FROM t GROUP BY a GROUPING SETS (({X}, a), b, ())", "SELECT a FROM t GROUP BY {X}, b GROUPING SETS (a, (a, b)) ORDER BY {X} DESC NULLS LAST", "SELECT a FROM t CLUSTER BY {X}",
+             "SELECT SUM(a) OVER (ORDER BY {X} ROWS BETWEEN 1 PRECEDING AND CURRENT ROW) FROM t", "SELECT a FROM t WHERE b IN (SELECT {X} FROM u) ORDER BY ({X}) LIMIT 1"]
     for h in hosts:
         for x in ("arr[0]", "m['k']", "a % 2", "b"):
             t = h.replace("{X}", x)
